@@ -977,6 +977,7 @@ func checkC07(w *World, r *Report) {
 	pillT := w.Named("actor", "poisonPill")
 	// R1
 	spp := w.Method("actor", "Engine", "sendPoisonPill")
+	sppCtx, sppGraceful, sppPid := 1, 2, 3 // parameter slots of the (private) pill sender, found by type
 	if spp == nil {
 		// find by role: method of Engine that builds a poisonPill literal
 		for _, fn := range w.MethodsOf("actor", "Engine") {
@@ -997,6 +998,7 @@ func checkC07(w *World, r *Report) {
 		g := w.FGI(spp)
 		site := w.fnPos(spp)
 		fn := fname(spp)
+		sppCtx, sppGraceful, sppPid = sppParamSlots(spp)
 		// WithCancel call
 		var wc *ssa.Call
 		nwc := 0
@@ -1022,7 +1024,7 @@ func checkC07(w *World, r *Report) {
 			if len(pills) != 1 || pills[0]["cancel"] == nil || w.pathOf(pills[0]["cancel"]) != wcp+"#1" {
 				okPair = false
 			}
-			if okPair && w.pathOf(pills[0]["graceful"]) != "P2" {
+			if okPair && w.pathOf(pills[0]["graceful"]) != fmt.Sprintf("P%d", sppGraceful) {
 				okPair = false
 			}
 			for _, x := range g.returns {
@@ -1081,7 +1083,7 @@ func checkC07(w *World, r *Report) {
 				if c := callOf(in); c != nil && c.StaticCallee() == sl && sl != nil {
 					if _, isCall := in.(*ssa.Call); isCall && len(c.Args) == 4 {
 						n, _, lit := w.structLit(c.Args[2])
-						if lit && sameNamed(n, pillT) && w.pathOf(c.Args[1]) == "P3" {
+						if lit && sameNamed(n, pillT) && w.pathOf(c.Args[1]) == fmt.Sprintf("P%d", sppPid) {
 							SL[i] = true
 						}
 					}
@@ -1102,9 +1104,14 @@ func checkC07(w *World, r *Report) {
 
 	if spp != nil {
 		why := "Stop must be immediate and Poison graceful, both for the PID the caller gave."
-		w.checkRow(r, row{rule: "C07.R1", fn: w.Method("actor", "Engine", "Stop"), callee: EvCall("spp", spp), name: "sendPoisonPill", args: []string{"P0", "call:context.Background()", "K:false", "P1"}, why: why})
-		w.checkRow(r, row{rule: "C07.R1", fn: w.Method("actor", "Engine", "Poison"), callee: EvCall("spp", spp), name: "sendPoisonPill", args: []string{"P0", "call:context.Background()", "K:true", "P1"}, why: why})
-		w.checkRow(r, row{rule: "C07.R1", fn: w.Method("actor", "Engine", "PoisonCtx"), callee: EvCall("spp", spp), name: "sendPoisonPill", args: []string{"P0", "P1", "K:true", "P2"}, why: why})
+		slots := func(ctx, graceful, pid string) []string {
+			a := []string{"P0", "", "", ""}
+			a[sppCtx], a[sppGraceful], a[sppPid] = ctx, graceful, pid
+			return a
+		}
+		w.checkRow(r, row{rule: "C07.R1", fn: w.Method("actor", "Engine", "Stop"), callee: EvCall("spp", spp), name: "sendPoisonPill", args: slots("call:context.Background()", "K:false", "P1"), why: why})
+		w.checkRow(r, row{rule: "C07.R1", fn: w.Method("actor", "Engine", "Poison"), callee: EvCall("spp", spp), name: "sendPoisonPill", args: slots("call:context.Background()", "K:true", "P1"), why: why})
+		w.checkRow(r, row{rule: "C07.R1", fn: w.Method("actor", "Engine", "PoisonCtx"), callee: EvCall("spp", spp), name: "sendPoisonPill", args: slots("P1", "K:true", "P2"), why: why})
 	}
 	// R2
 	pr.lta.export(r, "C07.R2", []string{"cancel-before-stopped", "restart-buffer-dropped"},"the stop context is cancelled only after the inbox stopped, the actor was unregistered and handled Stopped")
@@ -1525,6 +1532,19 @@ func checkC13(w *World, r *Report) {
 								}
 							}
 						}
+						// the delivery sits in a local closure of that function: the receiver it binds is the enclosing
+						// function's variable (a captured cell), and that variable is what was stored into Context.receiver
+						if cell := capturedCell(fn, mc.Bindings[0]); cell != nil && fn.Parent() != nil && storesTo(cell) == 1 {
+							for _, in := range w.insOf(fn.Parent()) {
+								if st, ok := in.(*ssa.Store); ok {
+									if fa, ok := st.Addr.(*ssa.FieldAddr); ok && isFieldOf(fa, pr.ctxT, "receiver") {
+										if ld, ok := st.Val.(*ssa.UnOp); ok && ld.Op == token.MUL && ld.X == cell {
+											okR = true
+										}
+									}
+								}
+							}
+						}
 					}
 				}
 			} else if cc.IsInvoke() {
@@ -1699,4 +1719,92 @@ func isParamPath(p string) bool {
 		}
 	}
 	return true
+}
+
+// capturedCell: v, inside the closure fn, is a load of a free variable: the cell (Alloc) of the enclosing function that
+// the closure captured for it, else nil.
+func capturedCell(fn *ssa.Function, v ssa.Value) ssa.Value {
+	ld, ok := v.(*ssa.UnOp)
+	if !ok || ld.Op != token.MUL {
+		return nil
+	}
+	fv, ok := ld.X.(*ssa.FreeVar)
+	if !ok || fn.Parent() == nil {
+		return nil
+	}
+	idx := -1
+	for i, f := range fn.FreeVars {
+		if f == fv {
+			idx = i
+		}
+	}
+	if idx < 0 {
+		return nil
+	}
+	for _, b := range fn.Parent().Blocks {
+		for _, in := range b.Instrs {
+			if mc, ok := in.(*ssa.MakeClosure); ok && mc.Fn == fn && idx < len(mc.Bindings) {
+				return mc.Bindings[idx]
+			}
+		}
+	}
+	return nil
+}
+
+// storesTo counts the stores into the cell v (in any function that can see it).
+func storesTo(v ssa.Value) int {
+	n := 0
+	var visit func(x ssa.Value, seen map[ssa.Value]bool)
+	visit = func(x ssa.Value, seen map[ssa.Value]bool) {
+		if seen[x] || x.Referrers() == nil {
+			return
+		}
+		seen[x] = true
+		for _, ref := range *x.Referrers() {
+			switch r := ref.(type) {
+			case *ssa.Store:
+				if r.Addr == x {
+					n++
+				}
+			case *ssa.MakeClosure:
+				for i, b := range r.Bindings {
+					if b == x {
+						if f, ok := r.Fn.(*ssa.Function); ok && i < len(f.FreeVars) {
+							visit(f.FreeVars[i], seen)
+						}
+					}
+				}
+			}
+		}
+	}
+	visit(v, map[ssa.Value]bool{})
+	return n
+}
+
+// sppParamSlots: the pill sender is private, so the order of its parameters is its own business: the slots of the
+// context, the graceful flag and the target PID are found by type (defaults when the shape is not (ctx, bool, *PID)).
+func sppParamSlots(spp *ssa.Function) (ctx, graceful, pid int) {
+	ctx, graceful, pid = 1, 2, 3
+	if spp == nil || len(spp.Params) != 4 {
+		return
+	}
+	c, g, p := 0, 0, 0
+	for i, prm := range spp.Params[1:] {
+		switch t := prm.Type().(type) {
+		case *types.Basic:
+			if t.Kind() == types.Bool {
+				g = i + 1
+			}
+		case *types.Pointer:
+			p = i + 1
+		case *types.Named:
+			if t.Obj().Name() == "Context" {
+				c = i + 1
+			}
+		}
+	}
+	if c > 0 && g > 0 && p > 0 && c != g && g != p && c != p {
+		return c, g, p
+	}
+	return
 }
